@@ -122,7 +122,9 @@ func (amp *AlignedAllocator) AppendString(pbuf *[]byte, s string) *[]byte {
 //go:norace
 func (amp *AlignedAllocator) Free(pbuf *[]byte) {
 	size := cap(*pbuf)
-	if size == 0 || (size&minAlignedBufferSizeMask) != 0 || size > maxAlignedBufferSize {
+	// Only a capacity that is exactly a class size goes back to the pools:
+	// anything else would be filed under a larger class than it can serve.
+	if size < minAlignedBufferSize || (size&(size-1)) != 0 || size > maxAlignedBufferSize {
 		return
 	}
 	amp.incrFree(pbuf)
